@@ -76,9 +76,10 @@ def jobs_mu(tier):
     else:
         for p in progs.mu_programs(2, 2): J.append(Job('c-futex', 'mu', p, 99, 0))
         for p in progs.mu_programs(3, 1): J.append(Job('c-futex', 'mu', p, 4, 0))
-        for p in progs.mu_programs(3, 2): J.append(Job('c-futex', 'mu', p, 2, 0))
-        for p in progs.mu_programs(3, 2, max_total=4): J.append(Job('c-futex', 'mu', p, 3, 0))
-        for p in progs.mu_programs(4, 1): J.append(Job('c-futex', 'mu', p, 2, 0))
+        for p in progs.mu_programs(3, 2): J.append(Job('c-futex', 'mu', p, 3, 0))
+        for p in progs.mu_programs(3, 2, max_total=4): J.append(Job('c-futex', 'mu', p, 4, 0))
+        for p in progs.mu_programs(4, 1): J.append(Job('c-futex', 'mu', p, 3, 0))
+        for p in progs.mu_programs(4, 2, max_total=5): J.append(Job('c-futex', 'mu', p, 2, 0))
         for p in progs.MU_RECYCLE: J.append(Job('c-futex', 'mu', p, 3, 0))
     J = both_sems(J)
     # scripted long schedules at the real LONG_WAIT_THRESHOLD (adversary family): progress must survive the
